@@ -142,6 +142,9 @@ func (matrix *DenseInt16Matrix) DIAG() DenseInt16Vector {
   return DenseInt16Vector(v)
 }
 func (matrix *DenseInt16Matrix) SLICE(rfrom, rto, cfrom, cto int) *DenseInt16Matrix {
+  if rfrom < 0 || rfrom > rto || rto > matrix.rows || cfrom < 0 || cfrom > cto || cto > matrix.cols {
+    panic(fmt.Errorf("slice (%d:%d,%d:%d) out of bounds for matrix of dimension %dx%d", rfrom, rto, cfrom, cto, matrix.rows, matrix.cols))
+  }
   m := *matrix
   m.rowOffset += rfrom
   m.rows = rto - rfrom
@@ -303,6 +306,9 @@ func (matrix *DenseInt16Matrix) ConstAt(i, j int) ConstScalar {
   return Int16{&matrix.values[matrix.index(i, j)]}
 }
 func (matrix *DenseInt16Matrix) ConstSlice(rfrom, rto, cfrom, cto int) ConstMatrix {
+  if rfrom < 0 || rfrom > rto || rto > matrix.rows || cfrom < 0 || cfrom > cto || cto > matrix.cols {
+    panic(fmt.Errorf("slice (%d:%d,%d:%d) out of bounds for matrix of dimension %dx%d", rfrom, rto, cfrom, cto, matrix.rows, matrix.cols))
+  }
   m := *matrix
   m.rowOffset += rfrom
   m.rows = rto - rfrom
